@@ -9,3 +9,7 @@ import LdkModel.Props.C10
 #print axioms Ldk.C10.resume_consistent_partial
 #print axioms Ldk.C10.repeated_crash_idempotent_partial
 #print axioms Ldk.C10.repeated_crash_closed_partial
+#print axioms Ldk.C10.reconcile_dropped_only_if_forwarded
+#print axioms Ldk.C10.reconcile_never_forwarded_kept
+#print axioms Ldk.C10.reconcile_forwarded_dropped
+#print axioms Ldk.C10.dedup_decode_exact
